@@ -6,6 +6,7 @@ import (
 
 	"github.com/RoaringBitmap/roaring"
 	segment "github.com/blugelabs/bluge_segment_api"
+	ice "github.com/blugelabs/ice/v2"
 
 	"verif/harness/gen"
 	"verif/harness/model"
@@ -47,9 +48,18 @@ func c15Run(c *runner.Ctx) {
 	type segSnap struct {
 		bytes []byte
 		obs   string
+		acc   string
+	}
+	// accessors that are not part of the observation dump: a loaded segment reports the CRC of the file it was loaded from
+	accessors := func(s segment.Segment) string {
+		if is, ok := s.(*ice.Segment); ok {
+			return fmt.Sprintf("CRC()=%08x Version()=%d Type()=%s Count()=%d NumDocs()=%d ChunkMode()=%d", is.CRC(), is.Version(), is.Type(), is.Count(), is.NumDocs(), is.ChunkMode())
+		}
+		return ""
 	}
 	snaps := make([]segSnap, len(w.Segs))
 	for i, sg := range w.Segs {
+		acc0 := accessors(sg.S) // before the first WriteTo
 		b, _, err := gen.Persist(sg.S)
 		if err != nil {
 			c.Note("persist failed (C04's business): " + err.Error())
@@ -60,7 +70,7 @@ func c15Run(c *runner.Ctx) {
 			c.Note("observe failed (C01/C02's business): " + err.Error())
 			return
 		}
-		snaps[i] = segSnap{append([]byte(nil), b...), o}
+		snaps[i] = segSnap{append([]byte(nil), b...), o, acc0}
 	}
 	var bms []*bmSnap
 	var log []string
@@ -77,6 +87,10 @@ func c15Run(c *runner.Ctx) {
 				c.Violate("segment-bytes-changed:"+sg.Kind, fmt.Sprintf("%s: the bytes persisted by segment %d (%s) changed (%s)", when, i, sg.Kind, diffAt(snaps[i].bytes, b)), fmt.Sprint(log))
 				ok = false
 				continue
+			}
+			if a := accessors(sg.S); a != snaps[i].acc {
+				c.Violate("segment-accessors-changed:"+sg.Kind, fmt.Sprintf("%s: segment %d (%s) answers its accessors differently: was %s now %s", when, i, sg.Kind, snaps[i].acc, a), fmt.Sprint(log))
+				ok = false
 			}
 			o, err := observe.Observe(sg.S, model.AllStats)
 			if err != nil || o != snaps[i].obs {
